@@ -366,9 +366,14 @@ fn consistency(w: &World, d: usize, from_t: u64, ty: &Name, res: &mut CaseResult
 }
 
 fn run_two(delta: u64, ja: u64, jb: u64, third: bool, trace: bool) -> CaseResult {
+    run_two_lb(delta, ja, jb, third, false, trace)
+}
+
+fn run_two_lb(delta: u64, ja: u64, jb: u64, third: bool, loopback: bool, trace: bool) -> CaseResult {
     let mut res = CaseResult::default();
     let mut w = World::new();
     w.trace = trace;
+    w.loopback = w.loopback || loopback;
     let nd = if third { 3 } else { 2 };
     let mut link = vec![];
     for d in 0..nd {
@@ -645,10 +650,10 @@ pub fn check(tier: &str) -> i32 {
     let d2 = deltas.clone();
     let two = FnPart {
         name: "S-two-daemons-one-name".into(),
-        rule: format!("two real daemons on one loss-free simulated link register the same instance and host name with different address/port; start offset every {step} ms from 0 to 3000 x 3x3 probe jitters; 9 s, then queries for every record type and unregister"),
-        n: nd * 9,
-        describe: Box::new(move |i| format!("delta {} jitters {}/{}", d2[(i % nd) as usize], js[((i / nd) % 3) as usize], js[(i / nd / 3) as usize])),
-        run: Box::new(move |i, tr| run_two(deltas[(i % nd) as usize], js[((i / nd) % 3) as usize], js[(i / nd / 3) as usize], false, tr)),
+        rule: format!("two real daemons on one loss-free simulated link register the same instance and host name with different address/port; start offset every {step} ms from 0 to 3000 x 3x3 probe jitters x (own multicasts not heard / heard back); 9 s, then queries for every record type and unregister"),
+        n: nd * 18,
+        describe: Box::new(move |i| format!("delta {} jitters {}/{}{}", d2[(i % nd) as usize], js[((i / nd) % 3) as usize], js[((i / nd / 3) % 3) as usize], if i / nd / 9 == 1 { " multicast-loop" } else { "" })),
+        run: Box::new(move |i, tr| run_two_lb(deltas[(i % nd) as usize], js[((i / nd) % 3) as usize], js[((i / nd / 3) % 3) as usize], false, i / nd / 9 == 1, tr)),
     };
     rep.run_part(&two, Duration::from_secs(if thorough { 3000 } else { 50 }));
     let three = FnPart {
